@@ -240,11 +240,13 @@ class _Builder:
         if self.aliases is None:
             _refuse(st, "alias_hmname is not a literal list defined before the loop")
         b = st.body
-        ok = (len(b) == 2 and isinstance(b[0], ast.Assign) and ast.unparse(b[0]) == "hmbare = hm.replace(' ', '')"
+        # the local holding the blank-free symbol may have any name
+        loc = b[0].targets[0].id if (b and isinstance(b[0], ast.Assign) and len(b[0].targets) == 1 and isinstance(b[0].targets[0], ast.Name)) else "hmbare"
+        ok = (len(b) == 2 and isinstance(b[0], ast.Assign) and loc not in ("a", "hm") and ast.unparse(b[0]) == "%s = hm.replace(' ', '')" % loc
               and isinstance(b[1], ast.Expr) and isinstance(b[1].value, ast.Call)
               and isinstance(b[1].value.func, ast.Attribute) and b[1].value.func.attr == "setdefault"
               and len(b[1].value.args) == 2 and ast.unparse(b[1].value.args[0]) == "a"
-              and isinstance(b[1].value.args[1], ast.Subscript) and ast.unparse(b[1].value.args[1].slice) == "hmbare")
+              and isinstance(b[1].value.args[1], ast.Subscript) and ast.unparse(b[1].value.args[1].slice) == loc)
         if not ok:
             _refuse(st, "alias loop body is not `hmbare = hm.replace(' ', ''); T.setdefault(a, R[hmbare])`")
         t = self.tref(b[1].value.func.value)
